@@ -5,6 +5,7 @@ import CCT.Model.Cli
 import CCT.Model.SignSteps
 import CCT.Model.RootSigning
 import CCT.Model.GpgSteps
+import CCT.Model.CliEdit
 import CCT.Ref.Crypto
 import Std.Data.HashMap
 /-!
@@ -463,6 +464,20 @@ def handle (memo : Memo) (line : String) : Memo × String :=
                     let rs := match r with | .done => "done" | .failed e => "failed:" ++ e.name | .injected i => "injected:" ++ toString i
                     let os := String.ofList (st.opens.map fun o => match o with | .read => 'r' | .write => 'w')
                     (memo, rs ++ " opens=" ++ os ++ " file=" ++ (match st.file with | some b => hexStr b | none => "-") ++ " steps=" ++ toString gpgPlan.length)
+                  | _, _ => (memo, "X bad-args")
+                | _ => (memo, "X bad-args")
+              | "cliedit" => match r3 with
+                -- gpg cliedit … <file bytes | -> <array of the lines typed>: the interactive modify-metadata editor
+                | ft :: r4 =>
+                  let file : Option (Option Bytes) := if ft == "-" then some none else (parseHexBytes (match ft.toList with | 'x' :: r => String.ofList r | l => String.ofList l)).map some
+                  match file, parseVal r4 with
+                  | some fl, some (.j (.arr ls), []) =>
+                    let inputs := ls.map strOf
+                    let r := cliModifyMetadata C G sslib fl inputs
+                    let oc := match r.outcome with
+                      | .returned none => "R None" | .returned (some n) => "R " ++ toString n | .raised e => "E " ++ e.name | .usage => "usage"
+                    let ws := ";".intercalate (r.writes.map fun (n, b) => "s" ++ codesStr n ++ ":" ++ hexStr b)
+                    (memo, "exit=" ++ toString (exitStatus .modulePkg r.outcome) ++ " outcome=" ++ oc.replace " " "_" ++ " writes=" ++ ws)
                   | _, _ => (memo, "X bad-args")
                 | _ => (memo, "X bad-args")
               | "via" => match parseVal r3 with
